@@ -23,6 +23,8 @@ pub enum REv {
     Sleep(u64),
     Eof,
     Err,
+    /// this read is interrupted (ErrorKind::Interrupted); the stream is intact and goes on with the next entry
+    Intr,
 }
 
 #[derive(Debug, Clone)]
@@ -99,6 +101,10 @@ impl AsyncRead for ScriptStream {
                 me.r.pop_front();
                 cx.waker().wake_by_ref();
                 Poll::Pending
+            }
+            Some(REv::Intr) => {
+                me.r.pop_front();
+                Poll::Ready(Err(std::io::Error::new(std::io::ErrorKind::Interrupted, "interrupted")))
             }
             Some(REv::Sleep(_)) => unreachable!(),
             Some(REv::Chunk(bs)) => {
@@ -198,6 +204,7 @@ pub fn parse_rscript(t: &mut Toks) -> PResult<VecDeque<REv>> {
             "p" => REv::Pending,
             "e" => REv::Eof,
             "x" => REv::Err,
+            "i" => REv::Intr,
             _ => {
                 if let Some(h) = s.strip_prefix("c:") {
                     REv::Chunk(unhex(&format!("x{}", h))?)
